@@ -53,6 +53,7 @@ func (e *queueElement) setListener(listener core.Listener) bool {
 
 func (q *queue) evictionFunc(e *list.Element) func() {
 	return func() {
+		verifPoint("queue.evict")
 		q.mu.Lock()
 		defer q.mu.Unlock()
 		q.list.Remove(e)
